@@ -30,6 +30,7 @@ CORPUS = [
     "fn main() { println(2 ** 10, (-2) ** 3, 0 ** 0, 7 ** 1); }",
     "fn main() { println(if true { 1 } else { 2 }, { let q = 4; q * 2 }); }",
     "fn main() { let o = new { f: fn() -> int { 1 }, a: 2 }; println(o.a); let g = o.f; println(g()); }",
+    "fn main() { let l = [0]; for i in 0..200 { l.push(i); } let s = 0; for x in l { s += x; } println(s, l.len()); }",
     "fn main() { let o: ?int = none; try { println(1 + o.unwrap()); } catch e { println(\"caught\"); }; println(2); }",
 ]
 
